@@ -27,6 +27,7 @@ func fastDisabledEdge(from *ssa.BasicBlock, si int) bool {
 
 func checkC07(c *Ctx) {
 	l := c.L
+	checkWorkingIterationMerges(c, "DOM-working-iteration")
 	checkSnapshotFlags(c, "FLOW-snapshot-flags")
 	checkNoDirectStoreWrites(c, "OWN-store-writes")
 	c.rule("FLOW-label-source", "index label version = version of the tree the index is built from", 1)
